@@ -198,11 +198,26 @@ def run(repo: Repo, rep: Report, tier: str) -> None:
     rep.floor("R06.4", 10)
     rep.floor("R06.6", 8)
     rep.floor("R06.5", 1)
-    _dataclass_rules(repo, rep)
-    _enum_literal(repo, rep)
-    _derive_scope(repo, rep)
-    _override_sibling(repo, rep)
-    _namedtuple_sibling(repo, rep)
+    try:
+        _dataclass_rules(repo, rep)
+    except Undecided as ex:
+        rep.undecide("dataclass_rules", str(ex))
+    try:
+        _enum_literal(repo, rep)
+    except Undecided as ex:
+        rep.undecide("enum_literal", str(ex))
+    try:
+        _derive_scope(repo, rep)
+    except Undecided as ex:
+        rep.undecide("derive_scope", str(ex))
+    try:
+        _override_sibling(repo, rep)
+    except Undecided as ex:
+        rep.undecide("override_sibling", str(ex))
+    try:
+        _namedtuple_sibling(repo, rep)
+    except Undecided as ex:
+        rep.undecide("namedtuple_sibling", str(ex))
 
 
 def _dataclass_rules(repo: Repo, rep: Report) -> None:
